@@ -103,7 +103,11 @@ func (c *Ctx) RunTLC(o TLCOpts) (*TLCResult, error) {
 	if o.Timeout == 0 {
 		o.Timeout = 5 * time.Minute
 	}
-	args := []string{"-XX:+UseParallelGC", "-Xss256m", "-Dfile.encoding=UTF-8", "-Dstdout.encoding=UTF-8"}
+	// TLC leaves an empty tlc-<n> directory in java.io.tmpdir on every run:
+	// point it into the scratch directory, which is removed afterwards
+	jtmp := filepath.Join(scratch, "jtmp")
+	os.MkdirAll(jtmp, 0o755)
+	args := []string{"-XX:+UseParallelGC", "-Xss256m", "-Dfile.encoding=UTF-8", "-Dstdout.encoding=UTF-8", "-Djava.io.tmpdir=" + jtmp}
 	if o.DFS {
 		args = append(args, "-Dtlc2.tool.queue.IStateQueue=StateDeque")
 	}
